@@ -258,11 +258,12 @@ def json_decoder(obj_dict: dict[str, Any]) -> dict[str, Any] | Object | Alias | 
         An instance of a data class.
     """
     # Load expressions.
-    if "cls" in obj_dict:
+    # (a `{name: member}` dictionary may well have a member called `cls` or `kind`: its values are objects)
+    if isinstance(obj_dict.get("cls"), str):
         return _load_expression(obj_dict)
 
     # Load objects and parameters.
-    if "kind" in obj_dict:
+    if isinstance(obj_dict.get("kind"), str):
         try:
             kind = Kind(obj_dict["kind"])
         except ValueError:
